@@ -220,6 +220,21 @@ func (g *gen) candidate() string {
 	}
 	kinds = append(kinds, g.o.ExtraKinds...)
 	k := rapid.SampledFrom(kinds).Draw(t, "kind")
+	if rapid.IntRange(0, 99).Draw(t, "longline") == 57 {
+		// one physical line longer than 64 KiB (the default token limit of a bufio.Scanner) or 4 KiB
+		n := rapid.SampledFrom([]int{4100, 65530, 65536, 70000, 140000}).Draw(t, "longlen")
+		switch rapid.IntRange(0, 2).Draw(t, "longkind") {
+		case 0:
+			return "# " + strings.Repeat("long comment ", n/13+1)[:n]
+		case 1:
+			if n > 70000 {
+				n = 70000 // a single environment string above 128 KiB makes every later execve fail (E2BIG)
+			}
+			return "env LONG=" + strings.Repeat("0123456789abcdef", n/16+1)[:n]
+		default:
+			return "exists " + strings.Repeat("           ", n/11+1)[:n] + " ."
+		}
+	}
 	if rapid.IntRange(0, 3).Draw(t, "neg") == 0 {
 		neg = "! "
 	}
